@@ -995,6 +995,30 @@ static int run_fatnest() {
 #else
   const bool want_allocs = false;
 #endif
+  // first: valid sequential clouds of 4000 points whose one attribute has 120 (60, 255) uint8 / int32 components -- the encoder's own streams; what the
+  // decoder allocates for them is judged against the declared points x components
+  for (int comps : {60, 120, 255}) {
+    for (int wide = 0; wide < 2; ++wide) {
+      PointCloud pc;
+      const int np = 4000;
+      pc.set_num_points(np);
+      GeometryAttribute ga;
+      ga.Init(GeometryAttribute::GENERIC, nullptr, comps, wide ? DT_INT32 : DT_UINT8, false, comps * (wide ? 4 : 1), 0);
+      const int id = pc.AddAttribute(ga, true, np);
+      std::vector<int32_t> v32(comps); std::vector<uint8_t> v8(comps);
+      for (int i = 0; i < np; ++i) {
+        for (int c = 0; c < comps; ++c) { v8[c] = (uint8_t)((i + c) % 5); v32[c] = (i * 3 + c) % 7 - 3; }
+        pc.attribute(id)->SetAttributeValue(AttributeValueIndex(i), wide ? (const void *)v32.data() : (const void *)v8.data());
+      }
+      Encoder enc;
+      enc.SetEncodingMethod(POINT_CLOUD_SEQUENTIAL_ENCODING);
+      enc.SetSpeedOptions(7, 7);
+      EncoderBuffer eb;
+      if (!enc.EncodePointCloudToBuffer(pc, &eb).ok()) continue;
+      g_emitted_ok = 0;
+      probe("wide-seq:" + std::to_string(comps) + (wide ? "xint32" : "xuint8"), std::vector<char>(eb.data(), eb.data() + eb.size()), Fault{8, 0, 0, 0}, 0, want_allocs, -2);
+    }
+  }
   static const long cases[][3] = {{4000, 990, 5000}, {19000, 900, 20000}, {190000, 900, 200000}, {900, 50, 1000}, {60000, 3, 61000}};
   for (auto &cs : cases) {
     EncoderBuffer b;
